@@ -393,6 +393,65 @@ impl BoundaryConstraint {
     }
 }
 
+// ---------------------------------------------------------------------------------------------------------------------
+// BoundaryConstraintGroup::evaluate_at (air/src/air/boundary/constraint_group.rs) - what the verifier adds to the
+// out-of-domain evaluation for every group: sum over the group's constraints, in order, of
+// (trace value of the constraint's column - asserted value) * composition coefficient, divided by the group divisor at x.
+pub uninterp spec fn e_zero() -> E;
+pub uninterp spec fn e_add(a: E, b: E) -> E;
+impl E { pub const ZERO: E = E(0); }
+impl AddAssignSpecImpl<E> for E {
+    open spec fn obeys_add_assign_spec() -> bool { true }
+    open spec fn add_assign_req(&self, rhs: E) -> bool { true }
+    open spec fn add_assign_spec(&self, rhs: E) -> &E { &e_add(*self, rhs) }
+}
+impl core::ops::AddAssign for E { #[verifier::external_body] fn add_assign(&mut self, rhs: Self) { unimplemented!() } }
+impl DivSpecImpl<E> for E {
+    open spec fn obeys_div_spec() -> bool { true }
+    open spec fn div_req(self, rhs: E) -> bool { true }
+    open spec fn div_spec(self, rhs: E) -> E { e_div(self, rhs) }
+}
+impl core::ops::Div for E { type Output = Self; #[verifier::external_body] fn div(self, rhs: Self) -> Self { unimplemented!() } }
+impl BoundaryConstraint {
+    pub fn column(&self) -> (r: usize) ensures r == self.column { self.column }
+    pub fn cc(&self) -> (r: &E) ensures *r == self.cc { &self.cc }
+}
+pub open spec fn bc_value(c: BoundaryConstraint, x: E, tv: E) -> E {
+    if c.poly.len() == 1 { e_sub(tv, e_from(c.poly@[0])) } else { e_sub(tv, poly_eval(c.poly@, e_mul(x, e_from(c.poly_offset.1)))) }
+}
+pub open spec fn group_sum(cs: Seq<BoundaryConstraint>, state: Seq<E>, x: E, t: nat) -> E
+    decreases t
+{
+    if t == 0 { E::ZERO } else {
+        e_add(group_sum(cs, state, x, (t - 1) as nat), e_mul(bc_value(cs[t - 1], x, state[cs[t - 1].column as int]), cs[t - 1].cc))
+    }
+}
+pub struct BoundaryConstraintGroup { pub constraints: Vec<BoundaryConstraint>, pub divisor: ConstraintDivisor }
+impl BoundaryConstraintGroup {
+    pub fn constraints(&self) -> (r: &Vec<BoundaryConstraint>) ensures r@ == self.constraints@ { &self.constraints }
+
+    //@@ source air/src/air/boundary/constraint_group.rs
+    //@@ extract anchor="pub fn evaluate_at(&self, state: &[E], x: E) -> E"
+    //@@ itername 1 it
+    //@@ loop 1
+    //@@|            invariant
+    //@@|                0 <= it.index@ <= self.constraints@.len(),
+    //@@|                forall|t: int| 0 <= t < self.constraints@.len() ==> (#[trigger] self.constraints@[t]).column < state.len() && self.constraints@[t].poly.len() >= 1,
+    //@@|                numerator == group_sum(self.constraints@, state@, x, it.index@ as nat),
+    //@@ loopstart 1
+    //@@|            proof { assert(*constraint == self.constraints@[it.index@]); }
+    pub fn evaluate_at(&self, state: &[E], x: E) -> (r: E)
+        requires
+            forall|t: int| 0 <= t < self.constraints@.len() ==> (#[trigger] self.constraints@[t]).column < state.len() && self.constraints@[t].poly.len() >= 1,
+            forall|t: int| 0 <= t < self.divisor.numerator@.len() ==> (#[trigger] self.divisor.numerator@[t]).0 <= u32::MAX,
+        ensures
+            r == e_div(group_sum(self.constraints@, state@, x, self.constraints@.len()),
+                       e_div(num_product(self.divisor.numerator@, x, self.divisor.numerator@.len()), exemptions_product(self.divisor.exemptions@, x))),
+    {
+        /*@@body*/
+    }
+}
+
 proof fn divisorv_canary_must_fail(a: Assertion, n: int, g: B, i: int)
     requires blaws(), ord_ok(g, n), valid(a, n), 0 <= i < n
     ensures pw(pw(g, i as nat), num_steps(a, n) as nat) == pw(g, (num_steps(a, n) * a.first_step) as nat)
